@@ -20,13 +20,18 @@ RULE = ("for every size n = 1..7 and every family (dense integer / dyadic / unif
         "(operation, size, family, outcome).")
 CORR_ONLY = ["the constants c of the accuracy clauses (c*n*kappa*eps for X and X*M, c*n*kappa^2*eps for M*X; "
              "K*eps*permanent(|A|) for the determinant) are calibrated, not proved (floating-point backward error)"]
-ASSUMPTIONS = ["kappa_inf = |M|_inf * |M^-1|_inf computed exactly; eps = 2^-53",
+ASSUMPTIONS = ["the determinant is representable: matrices whose exact determinant is non-zero but rounds to 0 in double (|det| < 2^-1074, "
+               "e.g. 2^-540 * I_2) are outside the quantifier - Determinant() returns the correctly rounded value 0 for them and "
+               "Invertible()/Inverse() follow that value (audit item 15)",
+               "kappa_inf = |M|_inf * |M^-1|_inf computed exactly; eps = 2^-53",
                "Invertible() is decided by the floating-point determinant: requests keep a relative margin from det = 0"]
 TRUSTED = ["props/c05.py: exact fraction elimination (determinant, inverse) used by the oracle"]
 
-C_INV = 16          # c of the inverse accuracy clause (calibrated: see K statistics in the evidence, x16 safety)
-K_DET = 2           # determinant: K_DET * (n^2 + 4n) * eps * permanent(|A|)
+C_INV = 4           # c of the inverse accuracy clause (audit: worst observed 1.18)
+K_LAW = 8           # determinant laws on general doubles: K_LAW * eps * permanent scale
 KAPPA_MAX = 10 ** 8
+# exactly singular (exact rank) AND Determinant() != 0 AND Inverse returned normally: audit defect 1
+RESIDUE_CLAUSE = "exactly singular matrix whose Determinant() is a non-zero rounding residue: Inverse returned numbers instead of a diagnostic"
 
 
 def mat_tok(M):
@@ -247,6 +252,41 @@ def residue_singular(rng, n):
     return M
 
 
+
+def rankdef_wide(rng, n):
+    """exactly rank-deficient matrices whose entries need 14..24 bits (float32-sized integers, float32 values, random
+    doubles): a row (column) is the exact sum / difference of two others, or an exact copy; the exact rank is decided
+    with Fractions.  The floating-point Laplace determinant of these is in general a non-zero rounding residue."""
+    kind = rng.choice(["int20", "int20", "f32", "f32", "dbl"])
+    def e():
+        if kind == "int20":
+            return float(rng.randint(-2 ** 19, 2 ** 19))
+        if kind == "f32":
+            return float(rng.randint(-2 ** 23, 2 ** 23)) * 2.0 ** -20        # 24-bit mantissa, common exponent range
+        return rng.uniform(-1, 1)
+    for _ in range(50):
+        M = [[e() for _ in range(n)] for _ in range(n)]
+        r = rng.randrange(n); others = [i for i in range(n) if i != r]
+        c = rng.random()
+        if kind == "dbl" or n == 2 or c < 0.2:
+            p_ = rng.choice(others); m_ = rng.choice([1.0, -1.0, 2.0, 0.5])
+            if rng.random() < 0.5:
+                M[r] = [m_ * x for x in M[p_]]
+            else:
+                for i in range(n):
+                    M[i][r] = m_ * M[i][p_]
+        elif c < 0.7:
+            p_, q_ = rng.sample(others, 2); sg = rng.choice([1, -1])
+            M[r] = [x + sg * y for x, y in zip(M[p_], M[q_])]
+        else:
+            p_, q_ = rng.sample(others, 2)
+            for i in range(n):
+                M[i][r] = M[i][p_] + M[i][q_]
+        if fdet(M) == 0:
+            return M
+    return None
+
+
 def tiny_scale(rng, n):
     """well-conditioned matrix times a scale that puts the determinant into the subnormal range (non-zero)"""
     kind = rng.choice(["id", "sperm", "upper", "int"])
@@ -344,6 +384,12 @@ def generate(tier, seed, ctx):
     for M in (col_dep, [[0.1, -0.8, -0.1], [0.2, -1.6, -0.2], [-0.3, 0.8, -0.6]], [[0.3, 0.7], [0.3, 0.7]], [[0.1, 0.2, 0.7], [0.9, 0.4, 0.3], [0.1, 0.2, 0.7]]):
         R.append("c05.gate " + mat_tok(M)); ctx["fam"][R[-1]] = "residue_singular"
         R.append("c05.inverse " + mat_tok(M)); ctx["fam"][R[-1]] = "residue_singular"
+    # exactly rank-deficient, entries of 14..24 bits (OPEN DEFECT 1 of the audit: see RESIDUE_CLAUSE)
+    for n in range(2, 8):
+        for _ in range(20 if thorough else 5):
+            M = rankdef_wide(rng, n)
+            if M is not None:
+                R.append("c05.gate " + mat_tok(M)); ctx["fam"][R[-1]] = "rankdef_wide"
     # determinant in the subnormal range, matrix well-conditioned
     for n in range(1, 8):
         for _ in range(6 if thorough else 3):
@@ -367,6 +413,17 @@ def generate(tier, seed, ctx):
         if rng.random() < 0.2:
             A = fam_matrix(rng, n, "rankdef")
         R.append("c05.detlaws %s %s" % (mat_tok(A), mat_tok(B))); ctx["fam"][R[-1]] = "laws"
+    # the laws on general doubles
+    for _ in range(200 if thorough else 60):
+        n = rng.randint(1, 6)
+        kind = rng.choice(["uniform", "mixed", "dyadic"])
+        def gm():
+            if kind == "uniform":
+                return [[rng.uniform(-1, 1) for _ in range(n)] for _ in range(n)]
+            if kind == "mixed":
+                return [[mixed_magnitude(rng, -3, 3) for _ in range(n)] for _ in range(n)]
+            return [[dyadic(rng, -8, 8, 4) for _ in range(n)] for _ in range(n)]
+        R.append("c05.detlaws %s %s" % (mat_tok(gm()), mat_tok(gm()))); ctx["fam"][R[-1]] = "laws-general"
     # guards: non-square
     for r in range(1, 6):
         for c in range(1, 6):
@@ -384,8 +441,40 @@ def parse_mat(a, pos=0):
     return [es[i * c:(i + 1) * c] for i in range(r)], pos + 2 + r * c
 
 
+
+def fperm(M):
+    """permanent of |M| in floating point, rounded up a little (a scale, not a value)"""
+    n = len(M)
+    A = [[abs(float(x)) for x in r] for r in M]
+    def rec(rows, cols):
+        if len(rows) == 1:
+            return A[rows[0]][cols[0]]
+        i = rows[0]
+        return sum(A[i][j] * rec(rows[1:], cols[:k] + cols[k + 1:]) for k, j in enumerate(cols) if A[i][j] != 0)
+    return Fraction(rec(list(range(n)), list(range(n))) * (1 + 1e-9)) if n else Fraction(0)
+
+
+def triangular(M):
+    n = len(M)
+    up = all(M[i][j] == 0 for i in range(n) for j in range(i))
+    lo = all(M[i][j] == 0 for i in range(n) for j in range(i + 1, n))
+    return up or lo
+
+
+def diag_product(M):
+    """the product of the diagonal nested from the right, a00*(a11*(...)), in doubles"""
+    n = len(M); p = float(M[n - 1][n - 1])
+    for i in range(n - 2, -1, -1):
+        p = float(M[i][i]) * p
+    return p
+
+
+def small_ints(M, lim=3):
+    return all(float(x).is_integer() and abs(x) <= lim for r in M for x in r)
+
+
 def det_tol(n, scale):
-    return K_DET * (n * n + 4 * n) * EPS * scale + Fraction(math.factorial(n) * 8, 2 ** 1074)   # + subnormal granularity
+    return (n + 2) * EPS * scale + Fraction(math.factorial(n) * 8, 2 ** 1074)   # (n+2) eps perm(|A|) + subnormal granularity
 
 
 def oracle(op, a, impl, ctx, scale_model=None):
@@ -400,17 +489,37 @@ def oracle(op, a, impl, ctx, scale_model=None):
         B, _ = parse_mat(a, p)
         if ti_ != "ok" or len(ti) != 5:
             return ("determinant of a square matrix terminated the process", impl[:100])
-        dA, dB, dAB, dAT, dSw = [Fraction(fl(t)) for t in ti]
+        vals = [fl(t) for t in ti]
+        if any(math.isnan(v) or math.isinf(v) for v in vals):
+            return ("determinant law: non-finite determinant", impl[:100])
+        dA, dB, dAB, dAT, dSw = [Fraction(v) for v in vals]
         eA, eB = fdet(M), fdet(B)
         bad = []
-        if dA != eA or dB != eB:
-            bad.append("Determinant differs from the exact determinant (small integers: exact in double)")
-        if dAB != dA * dB:
-            bad.append("det(A*B) != det(A)*det(B)")
-        if dAT != dA:
-            bad.append("det(transpose A) != det A")
-        if n >= 2 and dSw != -dA:
-            bad.append("row exchange does not flip the sign")
+        if small_ints(M) and small_ints(B) and n <= 5:
+            if dA != eA or dB != eB:
+                bad.append("Determinant differs from the exact determinant (small integers: exact in double)")
+            if dAB != dA * dB:
+                bad.append("det(A*B) != det(A)*det(B)")
+            if dAT != dA:
+                bad.append("det(transpose A) != det A")
+            if n >= 2 and dSw != -dA:
+                bad.append("row exchange does not flip the sign")
+        else:
+            pA, pB = fperm(M), fperm(B)
+            pAB = fperm([[sum(abs(Fraction(M[i][k]) * Fraction(B[k][j])) for k in range(n)) for j in range(n)] for i in range(n)])
+            w = ctx["worst"]
+            if pA > 0:
+                w["lawT"] = max(w.get("lawT", 0.0), float(abs(dAT - dA) / (EPS * pA)), float(abs(dSw + dA) / (EPS * pA)) if n >= 2 else 0.0)
+            if pAB > 0:
+                w["lawAB"] = max(w.get("lawAB", 0.0), float(abs(dAB - dA * dB) / (EPS * pAB)))
+            if abs(dA - eA) > det_tol(n, pA) or abs(dB - eB) > det_tol(n, pB):
+                bad.append("Determinant differs from the exact determinant by more than (n+2) eps perm")
+            if abs(dAB - dA * dB) > K_LAW * EPS * pAB:
+                bad.append("det(A*B) differs from det(A)*det(B) by more than 8 eps perm(|A||B|)")
+            if abs(dAT - dA) > K_LAW * EPS * pA:
+                bad.append("det(transpose A) differs from det A by more than 8 eps perm")
+            if n >= 2 and abs(dSw + dA) > K_LAW * EPS * pA:
+                bad.append("row exchange does not flip the sign (to 8 eps perm)")
         return ("determinant law: " + "; ".join(bad), "") if bad else None
     if op == "c05.gate":
         if not sq:
@@ -420,13 +529,14 @@ def oracle(op, a, impl, ctx, scale_model=None):
         k = ti.index("|")
         dv, iv, rest = fl(ti[0]), ti[1], ti[k + 1:]
         d = fdet(M)
-        if (dv == 0.0) == (d == 0):
-            if iv != ("1" if d != 0 else "0"):
-                return ("Invertible() is not (det != 0)", "det = %r, Determinant() = %r, answer %s" % (float(d), dv, iv))
-        else:
-            ctx["excused"] += 1     # rounding residue / underflow of the floating-point determinant: Invertible() not judged
+        # literal clause, zero slack: Invertible() is true exactly when the Determinant() the library returns is non-zero
+        if iv != ("1" if dv != 0.0 else "0"):
+            return ("Invertible() is not (Determinant() != 0)", "Determinant() = %r, exact det = %r, answer %s" % (dv, float(d), iv))
         if d == 0:
             # exactly singular: a diagnostic is the only acceptable outcome, whatever the rounded determinant says
+            if rest[:1] != ["err"] and dv != 0.0:
+                bump(ctx, "singular-with-residue-determinant:inverse-returned")
+                return (RESIDUE_CLAUSE, "Determinant() = %r, Invertible() = %s, Inverse() -> %s" % (dv, iv, " ".join(rest[:6])))
             if rest[:1] != ["err"]:
                 return ("singular matrix: Inverse returned numbers instead of a diagnostic",
                         "Determinant() = %r, Invertible() = %s, Inverse() -> %s" % (dv, iv, " ".join(rest[:6])))
@@ -448,9 +558,13 @@ def oracle(op, a, impl, ctx, scale_model=None):
         scale = scale_model if scale_model is not None else rowprod(M)
         if math.isnan(v) or abs(Fraction(v) - d) > det_tol(n, scale):
             return ("Determinant differs from the exact determinant", "%r vs %r (n=%d)" % (v, float(d), n))
+        if triangular(M) and all(abs(x) <= 1e20 and (x == 0 or abs(x) >= 1e-20) for r_ in M for x in r_):
+            p_ = diag_product(M)
+            if not (v == p_):
+                return ("triangular matrix: Determinant is not the product of the diagonal", "%s vs %s" % (v.hex(), p_.hex()))
         if scale > 0:
             r = float(abs(Fraction(v) - d) / (EPS * scale))
-            ctx["worst"]["det"] = max(ctx["worst"]["det"], r / (n * n + 4 * n))
+            ctx["worst"]["det"] = max(ctx["worst"]["det"], r / (n + 2))
         return None
     if op == "c05.invertible":
         if ti_ != "ok":
@@ -535,8 +649,12 @@ def compare(rq, impl, model, ctx):
                 if not close(fl(ti[0]), fr(tm[0]), 1, 0, atol=det_tol(n, rowprod(M))):
                     out.append(fail("corr", "gate: Determinant() differs from the model", ""))
         elif op == "c05.detlaws":
-            if [Fraction(fl(t)) for t in ti] != [fr(t) for t in tm]:
-                out.append(fail("corr", "detlaws: implementation differs from the model", ""))
+            B_, _ = parse_mat(a, 2 + n * n)
+            sc = [fperm(M), fperm(B_), None, fperm(M), fperm(M)]
+            sc[2] = fperm([[sum(abs(Fraction(M[i][k]) * Fraction(B_[k][j])) for k in range(n)) for j in range(n)] for i in range(n)])
+            for t1, t2, s_ in zip(ti, tm, sc):
+                if abs(Fraction(fl(t1)) - fr(t2)) > (K_LAW + n + 2) * EPS * s_ + Fraction(1, 2 ** 1000):
+                    out.append(fail("corr", "detlaws: implementation differs from the model", "")); break
     return fs + out
 
 
